@@ -270,7 +270,15 @@ def map_children(t, r):
     if k == "slice":
         return ("slice", r(t[1]), r(t[2]), r(t[3]))
     if k == "call":
-        return ("call", r(t[1]), tuple(r(x) for x in t[2]), tuple((kk, r(v)) for kk, v in t[3]))
+        kws = []
+        for kk, v in t[3]:
+            v2 = r(v)
+            if kk is None and v2[0] == "dstar" and v2[1][0] == "dict" and \
+                    all(dk[0] == "const" and isinstance(dk[1], str) for dk, _ in v2[1][1]):
+                kws.extend((dk[1], dv) for dk, dv in v2[1][1])      # f(**{'a': x}) is f(a=x)
+            else:
+                kws.append((kk, v2))
+        return ("call", r(t[1]), tuple(r(x) for x in t[2]), tuple(kws))
     if k == "cmp":
         return _norm_cmp(t[1], r(t[2]), r(t[3]))
     if k == "bin":
@@ -707,6 +715,12 @@ class TermEval:
             amap[p] = v
         for k, v in kwargs.items():
             amap[k] = v
+        if a.kwarg is not None and not spread:
+            # the keywords the callee does not name end up in its **mapping parameter, in call order
+            named = {x.arg for x in a.posonlyargs + a.args + a.kwonlyargs}
+            extra = ("dict", tuple((("const", k), v) for k, v in call_term[3] if k is not None and k not in named))
+            amap[a.kwarg.arg] = extra
+            amap["**" + a.kwarg.arg] = extra
         if spread:
             # a parameter not bound explicitly may come out of the spread mapping (or keep its default)
             every = [x.arg for x in a.posonlyargs + a.args + a.kwonlyargs]
@@ -1195,6 +1209,9 @@ class _FuncEval:
         nt = self._named_tuple_of(e.value)
         if nt is not None and e.attr in nt:
             return mk_sub(b, ("const", nt.index(e.attr)))     # a field of a NamedTuple is its position
+        dv = self._dataclass_field(b, e.attr)
+        if dv is not None:
+            return dv
         t = ("attr", b, e.attr)
         try:
             props = self.ix.resolve_property_load(e, self.scope)
@@ -1213,6 +1230,34 @@ class _FuncEval:
         if t is not None and t[0] == "inst":
             return _nt_fields(t[1])
         return None
+
+    def _dataclass_field(self, b, attr):
+        """<DataClass(field=x, ...)>.field is x when the enclosing function never assigns that field (the object was
+        made here, so nobody else has had it yet)."""
+        if b[0] != "call" or b[1][0] != "global":
+            return None
+        try:
+            ent = self.ix.resolve_expr_entity(ast.parse(b[1][1], mode="eval").body, self.func.module)
+        except Exception:  # noqa: BLE001
+            return None
+        if ent is None or ent[0] != "class":
+            return None
+        cls = ent[1]
+        if not any(ast.unparse(d).split("(")[0].split(".")[-1] == "dataclass" for d in cls.node.decorator_list) or \
+                "__init__" in cls.methods:
+            return None
+        fields = [st.target.id for st in cls.node.body if isinstance(st, ast.AnnAssign) and isinstance(st.target, ast.Name)]
+        if attr not in fields or any(a[0] == "star" for a in b[2]) or any(k is None for k, _ in b[3]):
+            return None
+        root = self.func
+        while root.parent is not None:
+            root = root.parent
+        for n in ast.walk(root.node):
+            if isinstance(n, ast.Attribute) and n.attr == attr and isinstance(n.ctx, (ast.Store, ast.Del)):
+                return None
+        vals = dict(zip(fields, b[2]))
+        vals.update({k: v for k, v in b[3]})
+        return vals.get(attr)
 
     def _global_callee(self, f):
         """The package function / constructor named by a ('global', dotted) function term, if it resolves."""
@@ -1444,6 +1489,14 @@ class _FuncEval:
         return t
 
 
+class _FuncCtx:
+    """What _global_callee_impl needs to resolve a dotted name: the index and the function whose module the name is
+    written in."""
+
+    def __init__(self, ix, func):
+        self.ix, self.func = ix, func
+
+
 def _nt_fields(cls):
     if not any(isinstance(b, str) and b.split(".")[-1] == "NamedTuple" for b in cls.bases):
         return None
@@ -1651,6 +1704,12 @@ def _inline(te: "TermEval", func: FuncInfo, depth: int, stack: tuple, stop) -> S
                 out.calls.setdefault(k2, v)
                 if k in cs.precise:
                     out.precise.add(k2)
+                elif k2 != k and k2[0] == "call" and k2 not in out.precise:
+                    # a callable passed in as an argument (e.g. the class to construct) is known at this call site
+                    g2 = _global_callee_impl(_FuncCtx(te.ix, func), k2[1])
+                    if g2 is not None:
+                        out.calls[k2] = [g2]
+                        out.precise.add(k2)
             for k, v in cs.props.items():
                 out.props.setdefault(substitute(k, amap), v)
             for rpc, rt, rn in cs.raises:
@@ -1804,6 +1863,24 @@ def _inline(te: "TermEval", func: FuncInfo, depth: int, stack: tuple, stop) -> S
     for pc, t, n in base.raises:
         out.raises.append((expand_pc(pc, ())[0], t, n))
     for pc, t, n, ctx in base.yields:
+        g = gen_of(t[1]) if t[0] == "star" and isinstance(t[1], tuple) else None
+        amap = te._bind_args(g, unwrap(t[1])) if g is not None else None
+        if g is not None and amap is not None:
+            # `yield from <package generator>(...)`: that generator's own yields, in its order, under this yield's
+            # conditions and loops
+            gs = _inline(te, g, depth - 1, stack + (func,), stop)
+            for ypc, yt, yn, yctx in gs.yields:
+                yctx2 = tuple((k[0], k[1], substitute(k[2], amap)) if k[0] in ("for", "while") and
+                              isinstance(k[2], tuple) else k for k in yctx)
+                yt2 = ("star", substitute(yt[1], amap)) if yt[0] == "star" else substitute(yt, amap)
+                out.yields.append((tuple(pc) + tuple(substitute(q, amap) for q in ypc), yt2, yn,
+                                   tuple(ctx) + yctx2))
+            for k, v in gs.calls.items():
+                k2 = substitute(k, amap)
+                out.calls.setdefault(k2, v)
+                if k in gs.precise:
+                    out.precise.add(k2)
+            continue
         sink = []
         out.yields.append((pc, expand(t, pc, ctx, sink), n, ctx))
         out.effects.extend(sink)
@@ -1958,6 +2035,28 @@ def generator_sources(te: "TermEval", summ: Summary, t, depth: int = 2) -> list:
             sub.precise = {substitute(k, amap) for k in gs.precise}
             out.extend(generator_sources(te, sub, v, depth - 1))
     return out
+
+
+def is_fresh_empty_list(te: "TermEval", func, t) -> bool:
+    """Is `t` a list that is new and empty when the function creates it: `[]`, `list()`, or the list-valued field (declared
+    with an empty-list default / default_factory=list) of a dataclass object constructed in this very function?"""
+    if t in (("list", ()), ("call", ("global", "list"), (), ())):
+        return True
+    if t[0] == "attr" and t[1][0] == "call" and t[1][1][0] == "global":
+        try:
+            ent = te.ix.resolve_expr_entity(ast.parse(t[1][1][1], mode="eval").body, func.module)
+        except Exception:  # noqa: BLE001
+            return False
+        if ent is None or ent[0] != "class":
+            return False
+        if any(k == t[2] for k, _ in t[1][3]):
+            return False      # passed in by the caller of the constructor: not new
+        for st in ent[1].node.body:
+            if isinstance(st, ast.AnnAssign) and isinstance(st.target, ast.Name) and st.target.id == t[2] and \
+                    st.value is not None:
+                src = ast.unparse(st.value).replace(" ", "")
+                return src in ("[]", "list()") or (src.startswith("field(") and "default_factory=list" in src)
+    return False
 
 
 def refusal_literals(summ: Summary) -> set:
